@@ -61,7 +61,7 @@ template <class B> struct fixed_coarsening {
     }
 };
 
-struct Hdr { long kind; Q s; long nt, ce, dc, ml, ar; Mat A; std::vector<std::pair<Mat,Mat>> prs; };
+struct Hdr { long kind; Q s; long nt, ce, dc, ml, ar; Mat A; std::vector<std::pair<Mat,Mat>> prs; bool full = false; };
 
 template <class AMG> static void set_prm(typename AMG::params &p, const Hdr &h) {
     p.coarse_enough = (unsigned)h.ce; p.direct_coarse = h.dc != 0; p.max_levels = (unsigned)h.ml; p.allow_rebuild = h.ar != 0;
@@ -140,7 +140,7 @@ template <template <class> class C> struct Run {
             // the transfer operators in the op line must be the ones the implementation produces now
             bool same = recorded.size() == h.prs.size();
             for (size_t k = 0; same && k < recorded.size(); ++k) same = crs_same(*recorded[k].first, *h.prs[k].first.crs()) && crs_same(*recorded[k].second, *h.prs[k].second.crs());
-            if (!same) l << "transfer-operators-differ-from-op-line";
+            if (!same && !h.full) l << "transfer-operators-differ-from-op-line";
             r.nontrivial = amgcl_verif::access::levels(amg).size() >= 2;
             r.tag("levels" + std::to_string(amgcl_verif::access::levels(amg).size()));
             for (size_t k = 0; k < rebuilds.size(); ++k) {
@@ -200,6 +200,11 @@ static Hdr parse_hdr(Cur &c) {
 static Result execute(const Toks &t) {
     Cur c(t); const std::string &op = t[0];
     if (op == "amg_build") { Hdr h = parse_hdr(c); c.expect_end(); return run(h, {}, false); }
+    if (op == "amg_full") {   // end to end: the model computes the transfer operators itself (C04 models)
+        Hdr h = parse_hdr(c); Q e = c.rat(), rl = c.rat(); c.expect_end();
+        if (h.kind > 1 || !h.prs.empty() || e.v != Q(0.08f).v || rl.v != Q(1.0f).v) throw bad_input("amg_full");
+        h.full = true; Result r = run(h, {}, false); r.tag("full"); return r;
+    }
     if (op == "amg_rebuild") {
         Hdr h = parse_hdr(c); long K = c.nat(); std::vector<Mat> rb; std::string why;
         for (long k = 0; k < K; ++k) { rb.push_back(c.mat()); if (!crs_wf(*rb.back().crs(), why)) throw bad_input(why); }
@@ -246,6 +251,15 @@ static std::string make_line(Rng &rng, const Opts &o, bool rebuild) {
 static void generate(Rng &rng, const Opts &o, std::vector<std::string> &lines) {
     long N = o.cases > 0 ? o.cases : (o.thorough() ? 1500 : 150);
     for (long k = 0; k < N; ++k) lines.push_back(make_line(rng, o, k % 3 == 2));
+    for (long k = 0; k < N / 2; ++k) {     // end-to-end cases: coarsening models + hierarchy model
+        Hdr h; h.kind = rng.range(0, 1); long n = rng.range(2, o.thorough() ? 40 : 24); int fam = (int)rng.range(0, 4);
+        h.A = fam <= 3 ? gen_spd(rng, n, fam) : gen_convdiff(rng, n);
+        if (rng.coin(1, 4)) h.A = unsort(rng, h.A, false);
+        static const std::vector<long> ces2 = { 0, 1, 2, 3, 5, 8 }; static const std::vector<long> mls2 = { 2, 3, 10, 10 };
+        h.ce = rng.pick(ces2); h.dc = rng.coin(3, 4); h.ml = rng.pick(mls2); h.ar = rng.coin(); h.nt = rng.coin(1, 4) ? 17 : 1;
+        h.s = h.kind == 0 ? Q(1 / over_interp_of_kind0) : Q(1);
+        lines.push_back((Line() << "amg_full" << h.kind << h.s << h.nt << h.ce << h.dc << h.ml << h.ar << h.A << 0L << Q(0.08f) << Q(1.0f)).get());
+    }
     lines.push_back("amg_build 0 2/3 1 2 1 10 0 2 3 1 0 1 1 1 1 0");          // non-square matrix: precondition
     lines.push_back("amg_build 9 1 1 2 1 10 0 1 1 1 0 1 0");                    // unknown coarsening kind
 }
